@@ -74,6 +74,7 @@ class StepCounter:
         self.budget = None
         self.snap_at = None
         self.snaps = []
+        self.exceeded = False
         self.active = False
 
     def start(self):
@@ -101,11 +102,16 @@ class StepCounter:
         self.budget = budget
         self.snap_at = budget
         self.snaps = []
+        self.exceeded = False
 
     def _cb(self, code, offset):
         if not code.co_filename.startswith(PKG_DIR):
             return self.mon.DISABLE
         self.count += 1
+        if self.exceeded:
+            # the first BudgetExceeded was swallowed by a frame of the monitored code (seen: the pinned tree's
+            # list-closing loop): keep raising at every function entry until one gets through
+            raise BudgetExceeded()
         if self.snap_at is not None and self.count >= self.snap_at:
             f = sys._getframe(1)
             st = []
@@ -118,6 +124,7 @@ class StepCounter:
             self.snaps.append(st)
             if len(self.snaps) >= 3:
                 self.snap_at = None
+                self.exceeded = True
                 raise BudgetExceeded()
             self.snap_at = self.count + 20000
         return None
@@ -209,6 +216,8 @@ def parse(tokenizer, source, cpu_s=6.0, counter=None, budget=None):
     except BudgetExceeded:
         return "budget", "BUDGET@" + counter.loop_site(), counter.count
     except CpuWatchdog:
+        if counter is not None and counter.exceeded:
+            return "budget", "BUDGET@" + counter.loop_site(), counter.count
         return "watchdog", None, (counter.count if counter else 0)
     except Exception as e:  # BadTokenizationError and anything else escaping the parser
         return "error", e, (counter.count if counter else 0)
@@ -216,6 +225,7 @@ def parse(tokenizer, source, cpu_s=6.0, counter=None, budget=None):
         if counter is not None:
             counter.budget = None
             counter.snap_at = None
+            counter.exceeded = False
 
 
 def to_markdown(tokens):
